@@ -46,7 +46,7 @@ class Ctx:
                           "C08": {"rsq", "pend", "cur", "prev", "ax"}, "C19": {"rsq", "pend", "ctrs", "macs", "frag"},
                           "C11": {"smp", "sess"}, "C12": {"smp"}, "C14": {"frag"},
                           # the replay counters (C05), the MAC keys recorded / awaiting disclosure (C09), the resend queue (C18)
-                          "C05": {"ctrs"}, "C10": {"sess", "ms"},
+                          "C05": {"ctrs", "rsq"}, "C10": {"sess", "ms"},
                           # a MAC key queued for disclosure is a key anybody will be able to forge with
                           "C02": {"pend"}, "C09": {"macs", "pend"}, "C18": {"ms", "rsq", "rsf"}}.get(pid, set())
 
@@ -420,12 +420,17 @@ def c05(ctx):
         ctx.model("c05-bag-2x2", dict(bag, MaxSend=2, MaxFlight=2, MaxDup=2, MaxDrop=1), inv)
         ctx.export_validate("c05x-bag", dict(bag, MaxSend=2, MaxFlight=2, MaxDup=1), "bag", drain=True, maxsched=2500)
         ctx.random_validate("bag", 64, 60)
+        # over a conversation's life (End, the peer's disconnect, new sessions): nothing is shown twice
+        ctx.random_validate("life", 48, 60)
+        ctx.random_validate("errlife", 32, 60)
     else:
         ctx.model("c05-bag-3x3", dict(bag, MaxSend=3, MaxFlight=3, MaxDup=2, MaxDrop=1), inv, timeout=2400)
         ctx.model("c05-bag-v2", dict(PolA=1, PolB=1, Setup="ake", NetMode="bag", MaxSend=2, MaxFlight=2, MaxDup=3, MaxDrop=1), inv)
         ctx.export_validate("c05x-bag", dict(bag, MaxSend=2, MaxFlight=2, MaxDup=2), "bag", drain=True, maxsched=12000)
         ctx.random_validate("bag", 480, 150)
         ctx.random_validate("bagsess", 160, 120)
+        ctx.random_validate("life", 320, 120)
+        ctx.random_validate("errlife", 160, 120)
 
 
 def c09(ctx):
